@@ -574,7 +574,7 @@ fn gen_cases(seed: u64, thorough: bool) -> Vec<Case> {
     }
     // ---- arbitrary byte strings (biased towards plausible headers) -----------------------------
     let mut r = Rng::new(seed, "c27/random");
-    for _ in 0..(40_000 * scale) {
+    for _ in 0..(30_000 * scale) {
         let mut b = rand_bytes(&mut r, 24);
         if b.len() >= 5 && r.chance(3, 4) {
             b[0] = *r.pick(&[b'Q', b'Q', b'p', b'X', b'Z', 0]);
@@ -589,7 +589,7 @@ fn gen_cases(seed: u64, thorough: bool) -> Vec<Case> {
         cs.push(Case::Decode(b));
     }
     let mut r = Rng::new(seed, "c27/random-startup");
-    for _ in 0..(15_000 * scale) {
+    for _ in 0..(10_000 * scale) {
         let mut b = rand_bytes(&mut r, 28);
         if b.len() >= 4 && r.chance(3, 4) {
             let l: i32 = match r.below(8) {
@@ -608,13 +608,13 @@ fn gen_cases(seed: u64, thorough: bool) -> Vec<Case> {
     }
     // ---- well-formed frames + trailing bytes ---------------------------------------------------
     let mut r = Rng::new(seed, "c27/good");
-    for _ in 0..(12_000 * scale) {
+    for _ in 0..(9_000 * scale) {
         let mut b = good_frame(&mut r);
         b.extend_from_slice(&trailing(&mut r));
         cs.push(Case::Decode(b));
     }
     let mut r = Rng::new(seed, "c27/good-startup");
-    for _ in 0..(8_000 * scale) {
+    for _ in 0..(6_000 * scale) {
         let body = startup_body(&mut r);
         let version = if r.chance(1, 10) { 80877103 } else { 196608 };
         let mut b = startup_packet(8 + body.len() as i32, version, &body);
@@ -623,7 +623,7 @@ fn gen_cases(seed: u64, thorough: bool) -> Vec<Case> {
     }
     // ---- streams: several frames, fed whole / byte-by-byte / in random chunks -------------------
     let mut r = Rng::new(seed, "c27/stream");
-    for _ in 0..(2_500 * scale) {
+    for _ in 0..(1_800 * scale) {
         let mut s = vec![];
         let nf = 1 + r.below(4);
         for _ in 0..nf {
@@ -712,17 +712,18 @@ fn ref_stream(input: &[u8]) -> (Vec<Msg>, Ref) {
 
 fn main() {
     let args = parse_args();
-    quiet_panics();
+    std::panic::set_hook(Box::new(|_| {}));
     let oc = overflow_checks_on();
+    quiet_panics();
     let mut sum = Summary::default();
     sum.nontrivial_rule = "a case is one call of the real FrontendMessage::decode / decode_startup on a byte buffer (or one chunked stream fed through repeated decode calls); distinct = distinct (kind of call, input bytes, chunking); non-trivial = the buffer holds a complete header (>= 5 bytes for decode, >= 4 for decode_startup; streams: >= 1 complete frame header)".into();
     sum.notes.push(format!("harness built with overflow checks = {} (the model is run with oc = {})", oc, oc));
     let mut log = CaseLog::new(&args);
     let cases = gen_cases(args.seed, args.thorough);
     let nshards = if args.thorough { 48 } else { 16 };
-    let per = (cases.len() + nshards - 1) / nshards;
     let mut shard_txt: Vec<String> = vec![String::new(); nshards];
     let known_set: std::collections::HashSet<&str> = KNOWN.iter().cloned().collect();
+    let mut logged = 0usize;
     for (i, c) in cases.iter().enumerate() {
         let id = i as u64;
         if let Some(only) = &args.only {
@@ -765,13 +766,16 @@ fn main() {
                         _ => format!("observed {:?}, reference {:?} on [{}]", o.kind, rf, hex(b)),
                     };
                     sum.finding(slug, id, what, case());
-                    log.log(id, case());
+                    if logged < 400 || !known {
+                        log.log(id, case());
+                        logged += 1;
+                    }
                 }
                 if sum.samples.len() < 4 && (i % 977 == 5 || (!same && sum.samples.len() < 2)) {
                     sum.sample(case());
                 }
                 if args.only.is_none() {
-                    let k = i / per;
+                    let k = i % nshards;
                     shard_txt[k].push_str(&format!(
                         "{} {} {} {} {} {} {} {};\n",
                         if startup { "CStartup" } else { "CDecode" },
@@ -819,7 +823,7 @@ fn main() {
                     sum.sample(json!({"stream_hex": hex(s), "chunks": sizes, "messages": msgs.iter().map(json_msg).collect::<Vec<_>>(), "end": json_kind(&end), "bytes_left": left}));
                 }
                 if args.only.is_none() {
-                    let k = i / per;
+                    let k = i % nshards;
                     shard_txt[k].push_str(&format!(
                         "CStream {} {} [{}] [{}] {} {};\n",
                         id,
